@@ -19,18 +19,39 @@ TEXT = {
     "C08": "C08_single (all three edit kinds, with and without the original's check), C08_single_subst (indel handling off) and C08_multi (edit sets with spacing >= 3k+2: detected <= #edits and, when equal, the original is a candidate) are proved for every vertex-induced graph, walk and position; E2E_single_edit states 'detected exactly when no longer a walk'; path_matching is specified soundly and completely (C08b). Tie: correspondence of repair_dna / path_matching and a direct sweep over all single interior edits and spaced multi-edit sets.",
     "C09": "Clean strands returned alone with zero detections on both return paths; candidate list strictly increasing; every candidate reproduces the supplied check — proved for every input.",
     "C10": "repair_dna returns a value for every table/start/ACGT strand of length >= k and every option: the scan needs at most |s|+1 steps (both branches advance), no look-back indexes outside its chunk, look-ups bounded by |s| + 18k(|s|+k). Implementation observed under a look-up budget.",
-    "C11": "Mask = filter verdict on the i-th k-mer, ValueError iff none; valid graph = induced shift sub-graph with the arc in the column of the successor's last nucleotide, ValueError for empty mask and None. The filter call convention is observed by the harness with documented-interface filters.",
+    "C11": "Mask = filter verdict on the i-th k-mer, ValueError iff none; valid graph = induced shift sub-graph with the arc in the column of the successor's last nucleotide, ValueError for the empty mask. The filter call convention is observed by the harness with documented-interface filters.",
     "C12": "valid() equals the documented predicate (alphabet, run, motif/reverse complement, windowed GC, short-string rule), last-window = verdict of the final window, window conjunction for window-decidable configurations, reverse-complement invariance — proved on the integer-threshold model; float->threshold conversion recomputed by the harness with the code's expressions.",
     "C13": "Index <-> k-mer bijection, successor/predecessor lists as shift-append/prepend, predecessor iff successor, complete accessor, and the de Bruijn sub-table invariant for every constructor/converter — proved for every k and every vertex.",
     "C14": "Round trips accessor<->latter map and accessor<->matrix are the identity on every arc subset; content of map/matrix/vertex list; leaf queries agree and equal the d-step walk end points; illegal matrices rejected — proved for every k.",
     "C15": "add/mul/div/sub on canonical decimal strings return canonical strings with the exact value (carry/borrow chains of every length), special cases, canonical strings determined by value — proved by induction on the digit list.",
     "C16": "bits/DNA -> number -> bits/DNA identity at every length, string path = integer path, fixed-width rendering inverse and padding, fuel of the string loops never exhausted — proved.",
     "C17": "Proved on the exact-rational model of the power iteration: estimates in (0,4] (capacity <= 2), 0 for an arc-less graph, exactly d on d-regular graphs in single-start mode, soundness of the Collatz-Wielandt certificate (integer and rational), and what the code's own stopping rule certifies (C17_stop_accuracy: relative error <= tol/delta of the walk growth rate). NOT a theorem: the 1e-4 accuracy of the FLOATING-POINT iteration; it is tested two ways - step-by-step agreement (1e-9) of the float iteration with the exact model, and the result against the certified enclosure.",
-    "C18": "For ANY table digit->arc is a bijection onto the live arcs with the decoder's map as inverse (argsort is a permutation), with permutation rows the digit is the documented rank, table shape given a permutation-returning shuffle; decode's acceptance is table independent (C06). Seed reproducibility is observed, not proved.",
+    "C18": "For ANY table digit->arc is a bijection onto the live arcs with the decoder's map as inverse (argsort is a permutation), with permutation rows the digit is the documented rank, table shape given a permutation-returning shuffle; decode's acceptance is table independent (C06). NumPy's MT19937 seeding and legacy shuffle are modelled in Lean (Model/Shuffle.lean): in the model the table is a pure function of (k, seed), every row is a permutation for ANY generator stream, seeds >= 2^32 are ValueError; the model's tables are compared entry by entry with NumPy's on every run. That the call touches nothing but NumPy's global generator is observed, not proved.",
     "C19": "Scores have the accessor's shape and are positive only on arcs; every returning call removes exactly one existing arc of maximum score, changes nothing else, keeps accessor and latter map consistent; by induction over any call sequence.",
     "C20": "The Lean model is the stateless specification (every operation a pure function). Decided by translation validation of histories: random interleavings on shared argument objects, bit-for-bit argument snapshots, verbose on/off, results compared with isolated calls and with the model.",
 }
 TECH = "Lean 4 theorems about a hand-written model + differential correspondence (real Python vs native driver compiled from the model) + direct oracle sweep"
+TECH_TIE = ("Lean 4 theorems about a hand-written model; TWO ties to the source, both checked on every run: (1) translation - "
+            "harness/py2lean.py regenerates Lean definitions from the Python source and kernel-checked theorems (DswModel.Tie.*) prove "
+            "that they compute the model, so the property is also a theorem about the generated code; (2) differential correspondence "
+            "(real Python vs native driver compiled from the model) + direct oracle sweep")
+
+
+def tie_text(spec):
+    """sentence appended to the level text of a property whose code is (partly) translated."""
+    import tie
+    if not spec.get("tie"):
+        return ""
+    fns = []
+    for t in (spec["tie"] if isinstance(spec["tie"], list) else [spec["tie"]]):
+        name, only = (t, None) if isinstance(t, str) else t
+        fns += ["%s.%s" % (name, f) for f in sorted(tie.TIES[name]["theorems"]) if only is None or f in only]
+    cor = sorted({t.split(":Dsw.Tie.")[1] for t in spec["theorems"] if ":Dsw.Tie.gen_" in t})
+    return (" Translation tie: the Lean definitions of %s are REGENERATED from the Python source on every run "
+            "(harness/py2lean.py) and kernel-checked theorems prove that they compute the model on the functions' contracts%s; "
+            "when the source changes the tie theorems are re-checked against the new translation in a scratch build and the "
+            "outcome is recorded in the evidence (a broken translation tie alone is not a verdict, DESIGN.md §11)."
+            % (", ".join(fns), ("; the property is restated about the generated code (%s)" % ", ".join(cor)) if cor else ""))
 
 checks = []
 for pid in sorted(registry.PROPS):
@@ -42,11 +63,15 @@ for pid in sorted(registry.PROPS):
         "evidence_file": "evidence/%s.json" % pid,
         "replay_cmd_template": "./check %s --replay {path}" % pid,
         "engine": "lean-model+correspondence",
-        "level_claimed": {"category": spec["level"], "text": TEXT[pid], "design_ref": "DESIGN.md §4 " + pid},
+        "level_claimed": {"category": spec["level"], "text": TEXT[pid] + tie_text(spec),
+                          "design_ref": "DESIGN.md §4 " + pid + (", §11" if spec.get("tie") else "")},
         "level_note": "Trusted: Lean kernel; axioms propext/Classical.choice/Quot.sound; the correspondence harness "
                       "(sampled tie model<->code); NumPy/CPython primitives modelled not verified. "
+                      + ("Translation tie: the translator py2lean.py and the hand-written semantics of the Python/NumPy fragment "
+                         "(lean/DswModel/Py/Value.lean) are trusted and validated against CPython on every run (gen operations). "
+                         if spec.get("tie") else "")
                       + " ".join(spec.get("trusted", []) + spec.get("assumptions", [])),
-        "technique": TECH if spec["level"] == "proof" else "translation validation of call histories against the stateless Lean model + argument snapshots",
+        "technique": (TECH_TIE if spec.get("tie") else TECH) if spec["level"] == "proof" else "translation validation of call histories against the stateless Lean model + argument snapshots",
     })
 
 manifest = {
@@ -62,8 +87,10 @@ manifest = {
     "engines": [{
         "name": "lean-model+correspondence", "path": "lean/ harness/ check",
         "serves_properties": sorted(registry.PROPS),
-        "kind_free_text": "Lean 4 library DswModel (model of every dsw function + property theorems), native line-protocol "
-                          "driver, Python harness running the real functions on the same lines, per-property oracles",
+        "kind_free_text": "Lean 4 library DswModel (model of every dsw function + property theorems; Python->Lean translator, "
+                          "generated definitions and tie theorems for operation.py and the translatable parts of graphized.py / "
+                          "spiderweb.py), native line-protocol driver, Python harness running the real functions on the same "
+                          "lines, per-property oracles",
     }],
     "checks": checks,
     "notes": "Genuine defects repaired in /repo as fix: commits and the known finding K1 are listed in known_findings.json. "
